@@ -13,7 +13,10 @@ func init() {
 }
 
 // vCryptoFix: encryption enforced, keyring mid-rotation (new primary first, old key still installed).
-func vCryptoFix(name string) (*vFix, []byte, string) {
+func vCryptoFix(name string, labelLens ...int) (*vFix, []byte, string) {
+	if len(labelLens) == 0 {
+		labelLens = []int{0, 1}
+	}
 	conf := vBaseConfig()
 	conf.Name = name
 	newK, oldK := vBytes(16), vBytes(16)
@@ -26,7 +29,7 @@ func vCryptoFix(name string) (*vFix, []byte, string) {
 		newK = oldK
 	}
 	conf.Keyring = kr
-	conf.Label = string(vBytes(vPick(2)))
+	conf.Label = string(vBytes(labelLens[vPick(len(labelLens))]))
 	conf.EnableCompression = vPick(2) == 1
 	if vPick(2) == 1 {
 		conf.ProtocolVersion = 1 // encryption version 0 (padded)
@@ -141,7 +144,8 @@ func vStreamSealed(out []byte, key []byte, hdrLabel, label string, id string) {
 
 // C15 stream side: every byte written to a stream is label header + encrypted envelopes, including error replies.
 func H_C15_Streams() {
-	f, key, label := vCryptoFix(vSelf)
+	// label lengths up to the legal maximum: the associated data is frame header ++ label, 5 bytes longer
+	f, key, label := vCryptoFix(vSelf, 0, 1, 250, 251, 255)
 	m := f.m
 	f.vAddSelf(3, vBytes(1))
 	f.vAddConcreteAlive(vPeerA, 2)
